@@ -147,11 +147,12 @@ def _cfg(draw):
     if draw(st.integers(0, 2)):
         cfg = draw(modcfg.module_cfg(short_refresh=False, refresh=True))
         if draw(st.integers(0, 2)) and cfg["ctrl"]["with_refresh"]:
-            cfg["timing"]["tREFI"] = draw(st.integers(100, 250))
+            # shortened interval, but never one the device could not keep up with: every real part has tREFI >= 5 x tRFC
+            cfg["timing"]["tREFI"] = max(draw(st.integers(100, 250)), 4 * (cfg["timing"]["tRP"] + cfg["timing"]["tRFC"]))
             cfg["trefi_overridden"] = True
     else:
         cfg = draw(cc.core_cfg(refresh=True))
-        cfg["timing"]["tREFI"] = draw(st.integers(100, 250))
+        cfg["timing"]["tREFI"] = max(draw(st.integers(100, 250)), 4 * (cfg["timing"]["tRP"] + cfg["timing"]["tRFC"]))
     cfg["ctrl"]["with_refresh"] = True
     return cfg
 
